@@ -277,10 +277,20 @@ def exprs_deep(facts, fn, kind=None, depth=2):
             yield n
 
 
+_short_cache = {}
+
+
 def short(p):
     """Last path segment of a (possibly generic) type or def path, generic arguments removed."""
     if p is None:
         return ""
+    r = _short_cache.get(p)
+    if r is None:
+        r = _short_cache[p] = _short(p)
+    return r
+
+
+def _short(p):
     out = []
     depth = 0
     for ch in p:
